@@ -53,7 +53,12 @@ class Check(FormulaCheck):
 
     def plan(self, tier, seed):
         n, k = (450, 16) if tier == 'quick' else (25000, 32)
-        specs = [{'campaign': 'sentinels'}, {'campaign': 'charcode', 'seed': seed, 'n': 500 if tier == 'quick' else 200000}]
+        specs = [{'campaign': 'sentinels'}]
+        # CODE(CHAR(n)) = n: exhaustive over the Basic Multilingual Plane (quick) / over every code point (thorough), in 16 shards
+        top = 0x10000 if tier == 'quick' else 0x110000
+        for i in range(16):
+            specs.append({'campaign': 'charcode', 'seed': seed, 'lo': 1 + i * (top // 16), 'hi': min(top, 1 + (i + 1) * (top // 16)) if i < 15 else top,
+                          'n': 300 if tier == 'quick' else 0})
         for i in range(k):
             specs.append({'campaign': 'strings', 'seed': seed, 'n': n, 'i': i})
         return specs
@@ -175,7 +180,8 @@ class Check(FormulaCheck):
 
     def c_charcode(self, spec, rec):
         rnd = self.rng(spec)
-        ns = list(range(1, 256)) + [rnd.randint(256, 0x10FFFF) for _ in range(spec['n'])]
+        ns = list(range(spec['lo'], spec['hi'])) + [rnd.randint(0x10000, 0x10FFFF) for _ in range(spec['n'])]
+        rec.count('code_points_enumerated', spec['hi'] - spec['lo'])
         for n in ns:
             if 0xD800 <= n <= 0xDFFF:
                 continue
@@ -207,3 +213,13 @@ class Check(FormulaCheck):
         for f in ('sentinels',):
             rec.nt(f)
         rec.nt('sentinels2')
+
+    def judge(self, merged, tier):
+        want = (0x10000 if tier == 'quick' else 0x110000) - 1
+        got = merged['counts'].get('code_points_enumerated', 0)
+        return [] if got == want else ['CODE(CHAR(n)) sweep incomplete: %d of %d code points' % (got, want)]
+
+    def extra(self, merged):
+        n = merged['counts'].get('code_points_enumerated', 0)
+        return {'exhaustive_subspace': 'CODE(CHAR(n)) = n for every n in 1..%d (surrogates excluded)' % n}
+
